@@ -125,6 +125,19 @@ def cases(rng, tier):
                     case = mk(0, b, c, pattern, "app.log", [], ops)
                     case[5] = [[var, v1]]
                     out.append(case)
+    # the archive directory is removed by somebody else between two rolls of one roller (also of a clone of it - the
+    # harness uses clones every other case): the next roll creates it again, as the first one did
+    for (pattern, d) in (("arch/a.{}.log", "arch"), ("deep/er/a.{}.gz", "deep"), ("deep/er/a.{}.log", "deep/er"),
+                         ("arch/{}/a.log", "arch")):
+        for b in (0, 1):
+            for c in (1, 2, 3):
+                for at in (1, 2, 3):
+                    ops = []
+                    for k in range(c + 3):
+                        if k == at:
+                            ops.append([3, d])
+                        ops.append([1, b"d%d;" % k])
+                    out.append(mk(0, b, c, pattern, "app.log", [], ops))
     # delete roller
     for pattern in ("a.{}.log",):
         for present in ([], [0, 1]):
